@@ -3,12 +3,13 @@ CONSTANTS
   Names = {"alice"}
   Pws = {"Secret1", "secret1", "LONG"}
   LongPws = {"LONG"}
+  Pw72 = {}
   ExtraCands = {"", "SECRET1", "Secret1 ", "wrong"}
   PermSets = {{}, {"ego.logon"}, {"ego.root"}, {"other"}, {"ego.logon", "other"}}
   InitFmts = {"bcrypt", "sha", "plain"}
   InitCosts = {4}
   Spellings = {"exact", "upper", "mixed", "padded", "ghost", "empty"}
-  CandKinds = {"lit", "stored", "cyc", "braced", "hashof"}
+  CandKinds = {"lit", "stored", "cyc", "braced", "hashof", "ext"}
   MaxVer = 2
   Impl = "code"
   Depth = 1
